@@ -157,7 +157,10 @@ ConfigsC11x ==
                    !.hasDefault = FALSE, !.strat = {T, U, P},
                    !.budget = 1, !.handler = ha, !.abort = ab] :
         d \in {3, Inf}, ha \in BOOLEAN, ab \in BOOLEAN }
+\* incl. what may propagate out of execute(): cancellation kinds and a RetryExhaustedError raised
+\* by the operation itself (nested policy)
 OutsC11x == {OkOut} \cup FailOuts({"exc", "res"}, {T, U, R}, {None})
+            \cup {Out("nested", "-", None), Out("kbd", "-", None), Out("cancel", "-", None)}
 
 \* ---- C05: which strategy, with which arguments, and what happens to its value --
 OutsC05 == {OkOut} \cup FailOuts({"exc", "res"}, {T, R, U}, {None, 0, 2})
@@ -202,7 +205,8 @@ ConfigsC12x ==
                                 ELSE {}] :
         d \in {3, Inf}, st \in {<<TRUE, {}, {}>>, <<FALSE, {T, U, P}, {U}>>, <<FALSE, {}, {}>>},
         bu \in {1}, ha \in BOOLEAN, ab \in BOOLEAN }
-OutsC12x == {OkOut, Out("exc", T, None), Out("res", R, 2), Out("exc", U, None)}
+OutsC12x == {OkOut, Out("exc", T, None), Out("res", R, 2), Out("exc", U, None), Out("nested", "-", None),
+             Out("sysexit", "-", None)}
 ConfigsC15x ==
     { [Base EXCEPT !.maxAtt = 3, !.rc = TRUE, !.maxUnk = 1, !.D = d,
                    !.lim = [NoLim EXCEPT ![T] = 1], !.budget = 1, !.handler = ha, !.bsleep = TRUE,
